@@ -251,6 +251,12 @@ pub fn run(ctx: &Ctx) {
                 }
                 if ek == 1 {
                     probes.push((format!("t {{ v: m{}.$-p{}; }}", k, k), None));
+                    // assignment through the namespace: only to a variable the namespace exposes
+                    probes.push((format!("m{}.$nope: 1; t {{ v: 1; }}", k), None));
+                    for j in 1..nmod {
+                        let vis = ex.contains(&j);
+                        probes.push((format!("m{k}.$v{j}: 77; t {{ v: m{k}.$v{j}; }}", k = k, j = j), if vis { Some("77".into()) } else { None }));
+                    }
                 }
             }
             // bare names in the entry: visible iff some star-used module exposes them
@@ -327,7 +333,7 @@ pub fn run(ctx: &Ctx) {
             }
         },
     );
-    ctx.bound(sub, "all 4^3 (quick) / 4^6 (thorough) graphs over 3 / 4 modules (edges i<j in {none, @use, @use as *, @forward}); per graph: load-once via @debug, CSS order, and every variable/function/mixin probe through every namespace and bare, every module's private variable through its namespace and bare, plus shared assignment through pairs of namespaces", true);
+    ctx.bound(sub, "all 4^3 (quick) / 4^6 (thorough) graphs over 3 / 4 modules (edges i<j in {none, @use, @use as *, @forward}); per graph: load-once via @debug, CSS order, and every variable/function/mixin probe through every namespace and bare, every module's private variable through its namespace and bare, assignment of every (and of an undefined) variable through every namespace, plus shared assignment through pairs of namespaces", true);
     ctx.sample(sub, json!({"m0.scss": "@use \"m1\"; @use \"m2\"; ...", "m1.scss": "@forward \"m3\"; ...", "m2.scss": "@use \"m3\"; ...", "oracle": "m3 evaluated once, .m3 first"}));
 
     // ---- (3) one module reached by different spellings ---------------------------------------------
@@ -469,6 +475,63 @@ pub fn run(ctx: &Ctx) {
     );
     ctx.bound(sub, "every 1-, 2- and 3-cycle (and 2-cycle behind an entry) over @use/@forward edges", true);
     ctx.sample(sub, json!({"e.scss": "@use \"b\";", "b.scss": "@forward \"e\";"}));
+
+    // ---- (5b) fan-in: one module loaded k times is evaluated once and is not a cycle -------------------
+    {
+        let sub = "fan-in";
+        // k loaders (each @use or @forward of the leaf) + optionally the entry itself loads the leaf, first or last
+        let mut cases: Vec<(Vec<(String, String)>, usize)> = Vec::new();
+        for k in 1..=4usize {
+            for mask in 0..(1u32 << k) {
+                for entry_direct in 0..3 {
+                    let mut files: Vec<(String, String)> = Vec::new();
+                    let mut entry = String::new();
+                    if entry_direct == 1 {
+                        entry.push_str("@use \"leaf\";\n");
+                    }
+                    for j in 0..k {
+                        entry.push_str(&format!("@use \"l{}\";\n", j));
+                        let rule = if mask & (1 << j) != 0 { "@forward \"leaf\";" } else { "@use \"leaf\";" };
+                        files.push((format!("l{}.scss", j), format!("{}\n.l{} {{ x: y; }}\n", rule, j)));
+                    }
+                    if entry_direct == 2 {
+                        entry.push_str("@use \"leaf\";\n");
+                    }
+                    entry.push_str("t { v: 1; }\n");
+                    files.push(("e.scss".into(), entry));
+                    files.push(("leaf.scss".into(), "@debug \"load leaf\";\n.leaf { x: y; }\n".into()));
+                    cases.push((files, k + if entry_direct > 0 { 1 } else { 0 }));
+                }
+            }
+        }
+        par(
+            ctx,
+            sub,
+            cases.len() as u64,
+            |i| json!({"files": cases[i as usize].0, "loads": cases[i as usize].1}),
+            |i, l| {
+                let (files, loads) = &cases[i as usize];
+                l.evals += 1;
+                let (o, logs) = fresh_thread(|| compile_project(files, "e.scss"));
+                l.outcome(o.digest());
+                l.validated += 1;
+                let key = format!("fan-in:{}", files.iter().map(|f| f.1.replace('\n', " ")).collect::<Vec<_>>().join("|"));
+                match &o {
+                    Outcome::Ok(c) => {
+                        l.nontrivial += 1;
+                        let n_debug = logs.iter().filter(|e| e.kind == "debug").count();
+                        let n_css = css::flatten(&css::parse(c).unwrap_or_default()).into_iter().filter(|b| b.selector == ".leaf").count();
+                        if n_debug != 1 || n_css != 1 {
+                            ctx.violation(sub, &key, &format!("a module loaded {} times was evaluated {} times and its CSS emitted {} times", loads, n_debug, n_css), json!({"files": files, "output": c}));
+                        }
+                    }
+                    other => ctx.violation(sub, &key, &format!("a module loaded {} times (no cycle) does not compile: {}", loads, other.brief()), json!({"files": files})),
+                }
+            },
+        );
+        ctx.bound(sub, "1..4 intermediate modules each loading the same leaf by @use or @forward (all 2^k choices), the entry loading the leaf itself first, last or not at all: the leaf is evaluated once, its CSS emitted once, no cycle is reported", true);
+        ctx.sample(sub, json!({"e.scss": "@use \"l0\"; @use \"l1\"; @use \"l2\";", "l<j>.scss": "@use \"leaf\";"}));
+    }
 
     // ---- (6) built-in modules vs global aliases ----------------------------------------------------------
     let sub = "builtin-aliases";
